@@ -86,8 +86,10 @@ def main():
     checks = (a.checks or a.prop).split(",")
     env2 = dict(os.environ)
     env2["VERIF_REPO"] = wt
-    env2["VERIF_EVIDENCE_DIR"] = os.path.join(lib.BUILD, "seed-evidence")
-    env2["VERIF_REPLAYS_DIR"] = os.path.join(lib.BUILD, "seed-replays")
+    tagdir = os.path.join(lib.VERIF, "build", "seed-" + os.path.basename(wt.rstrip("/")))
+    env2["VERIF_BUILD_DIR"] = tagdir
+    env2["VERIF_EVIDENCE_DIR"] = os.path.join(tagdir, "evidence")
+    env2["VERIF_REPLAYS_DIR"] = os.path.join(tagdir, "replays")
     res["checks"] = {}
     for c in checks:
         t0 = time.time()
